@@ -46,7 +46,8 @@ func (t *c14Mem) RemoveKey(k string) error { delete(t.m, k); return nil }
 func (t *c14Mem) SetKey(k, v string) error { t.m[k] = v; return nil }
 
 // base identities (already in PRECIS UsernameCaseMapped form)
-var c14Bases = []string{"alice", "bob@example.org", "üser", "full", "alias-a", "alias-b", "legacy-alice", "legacy-bob@example.org", "nobody"}
+var c14Bases = []string{"alice", "bob@example.org", "üser", "full", "alias-a", "alias-b", "legacy-alice", "legacy-bob@example.org", "nobody",
+	"postmaster"} // a valid address without a domain part (address.Split special-cases it)
 
 // spelling forms: 0 canonical, 1 upper case, 2 NFD, 3 fullwidth (ASCII letters only), 4 mixed case
 func c14Spell(base string, form int) string {
@@ -108,7 +109,7 @@ func c14Gen(t *rapid.T) c14Scenario {
 	for i := 0; i < n; i++ {
 		op := c14Op{
 			Kind: rapid.SampledFrom([]string{"create", "create", "setpw", "delete", "plain", "plain", "plain", "login", "login", "login"}).Draw(t, "op"),
-			User: rapid.SampledFrom([]int{0, 0, 0, 1, 1, 2, 3, 4, 5, 6, 7, 8}).Draw(t, "user"),
+			User: rapid.SampledFrom([]int{0, 0, 0, 1, 1, 2, 3, 4, 5, 6, 7, 8, 9, 9}).Draw(t, "user"),
 			Form: rapid.SampledFrom([]int{0, 0, 0, 1, 2, 3, 4}).Draw(t, "form"),
 			Pw:   rapid.SampledFrom([]int{0, 0, 0, 1, 2, 3, 3, 4, 5, 6, 7, 8, 8, 9, 10}).Draw(t, "pw"),
 		}
@@ -116,7 +117,7 @@ func c14Gen(t *rapid.T) c14Scenario {
 			op.Authzid = rapid.SampledFrom([]int{0, 0, 1, 2, 3}).Draw(t, "authzid")
 		}
 		if op.Kind == "create" || op.Kind == "setpw" || op.Kind == "delete" {
-			op.User = rapid.SampledFrom([]int{0, 0, 1, 2, 3}).Draw(t, "acct") // accounts are only made for the first four identities
+			op.User = rapid.SampledFrom([]int{0, 0, 1, 2, 3, 9}).Draw(t, "acct") // accounts are only made for these identities
 		}
 		sc.Ops = append(sc.Ops, op)
 	}
